@@ -189,11 +189,20 @@ func (s *c40State) edit(stale bool) string {
 		_ = unix.UtimesNanoAt(unix.AT_FDCWD, f, ts, 0)
 		return "stale-content-same-size-mtime-restored"
 	}
-	k := h.Intn(13)
-	if len(s.files) == 0 && k < 9 {
+	k := h.Intn(14)
+	if len(s.files) == 0 && (k < 9 || k == 13) {
 		k = 9
 	}
 	switch k {
+	case 13: // size changes, mtime put back: only the size comparison (and ctime) can notice
+		f := filepath.Join(s.src, pickFile())
+		var st unix.Stat_t
+		_ = unix.Lstat(f, &st)
+		fd, _ := os.OpenFile(f, os.O_WRONLY|os.O_APPEND, 0)
+		_, _ = fd.Write(h.Bytes(1 + h.Intn(50)))
+		fd.Close()
+		_ = unix.UtimesNanoAt(unix.AT_FDCWD, f, []unix.Timespec{st.Atim, st.Mtim}, 0)
+		return "append-mtime-restored"
 	case 0: // append: size and mtime change
 		f := filepath.Join(s.src, pickFile())
 		fd, _ := os.OpenFile(f, os.O_WRONLY|os.O_APPEND, 0)
